@@ -762,6 +762,29 @@ def shared_group(rng, gid, d):
     return [a, b]
 
 
+def multi_fan_decl(rng, did, k=4):
+    """one Async provider with k results, each consumed by its own Async provider (k done-channels closed by one call),
+    everything collected by a sink"""
+    types = {}
+    provs = []
+    groups = []
+    for i in range(1, k + 1):
+        types['T%d' % i] = {'form': rng.choice(['ptr', 'val'])}
+        groups.append(['T%d' % i])
+    provs.append({'id': 'P0', 'kind': 'fn', 'requires': [], 'provides': groups, 'async': True, 'fallible': False,
+                  'wrap': 'async-bind', 'struct': ''})
+    for i in range(1, k + 1):
+        types['U%d' % i] = {'form': rng.choice(['ptr', 'val'])}
+        provs.append({'id': 'P%d' % i, 'kind': 'fn', 'requires': ['T%d' % i], 'provides': [['U%d' % i]], 'async': True,
+                      'fallible': False, 'wrap': 'async-bind', 'struct': ''})
+    types['R'] = {'form': 'ptr'}
+    provs.append({'id': 'P%d' % (k + 1), 'kind': 'fn', 'requires': ['U%d' % i for i in range(1, k + 1)], 'provides': [['R']],
+                  'async': False, 'fallible': False, 'wrap': 'async-bind', 'struct': ''})
+    ids = [p['id'] for p in provs]
+    rng.shuffle(ids)
+    return {'id': did, 'injector': 'Init_' + did, 'ret': 'R', 'types': types, 'providers': provs, 'layout': ids, 'planted': None}
+
+
 def tree_decl(rng, did, n=6, p_async=0.85):
     """Out-tree: every provider depends on at most one earlier provider (fan-out below fan-out), mostly Async; a final
     provider consumes every leaf and some inner nodes."""
